@@ -308,3 +308,102 @@ def strategy(quick):
 def run(ctx):
     n = 1500 if ctx.quick else 6000
     ctx.hyp("cancel", strategy(ctx.quick), n)
+
+
+# ------------------------------------------------------------------------------------------------ E4 variant (real threads)
+
+def _cancel_bytes(mid, cid=5):
+    from pynetdicom.dimse_messages import C_CANCEL_RQ
+    from pynetdicom.pdu import P_DATA_TF
+
+    m = C_CANCEL_RQ()
+    m.primitive_to_message(cancel_primitive(mid))
+    return b"".join(P_DATA_TF(pd).encode() for pd in m.encode_msg(cid, 16382))
+
+
+def check_threaded(ctx, case):
+    """Real acceptor stack under the E4 scheduler: a raw requestor sends a C-FIND request and C-CANCEL requests (own / other message IDs) at
+    generated virtual times while the handler yields results with delays and polls event.is_cancelled. Judged with the arrival times of the
+    cancel P-DATA (EVT_DIMSE_RECV on the acceptor): a poll before any matching cancel was sent must be False; the first poll that starts
+    more than 0.3 virtual seconds after a matching cancel was received must find it (unless an earlier poll already did)."""
+    from engines import dsched as S
+    from engines import ps38ref as P8
+    from engines import scenario as SC
+    from pydicom.dataset import Dataset
+    from pynetdicom import evt
+    from vlib.core import HarnessError
+
+    polls = []  # (t, value)
+    recv = []  # (t, message id of a received C-CANCEL)
+    mid = case["mid"]
+
+    def h_find(event):
+        for i in range(case["n"]):
+            S.VTime.sleep(case["delay"])
+            polls.append((round(S.WORLD.now - 1000.0, 4), bool(event.is_cancelled)))
+            ds = Dataset()
+            ds.QueryRetrieveLevel = "PATIENT"
+            ds.PatientID = str(i)
+            yield 0xFF00, ds
+
+    def on_dimse(event):
+        try:
+            cs = event.message.command_set
+            if cs.CommandField == 0x0FFF:
+                recv.append((round(S.WORLD.now - 1000.0, 4), cs.MessageIDBeingRespondedTo))
+        except Exception:
+            pass
+
+    script = [["send", P8.ref_encode(SC.RAW_RQ)], ["recv_pdu", 5], ["send", SC.dimse_bytes("find", mid)]]
+    t = 0.0
+    sent = []
+    for dt, which in case["cancels"]:
+        script.append(["sleep", dt])
+        t += max(dt, 0.1)
+        script.append(["send", _cancel_bytes(mid if which == "own" else (mid + 1 if mid < 65535 else mid - 1))])
+        sent.append(which)
+    script += [["recv_idle", 2.0], ["send", P8.ref_encode(P8.ReleaseRQ())], ["recv_until_close", 5], ["close"]]
+    sc = {"timeouts": {"acse": 10, "dimse": 10, "network": 20}, "max_steps": 40000, "quantum": 0.1,
+          "acceptor": {"kind": "pynetdicom", "handlers": {}, "extra_handlers": [(evt.EVT_C_FIND, h_find), (evt.EVT_DIMSE_RECV, on_dimse)]},
+          "requestors": [{"kind": "raw", "script": script}], "schedule": case["schedule"]}
+    out = SC.run(sc)
+    if out["raw"][0].error:
+        raise HarnessError(f"raw peer failed: {out['raw'][0].error}")
+    own_recv = [t for t, m in recv if m == mid]
+    other_only = bool(recv) and not own_recv
+    ctx.note(case, nontrivial=bool(own_recv) or other_only, classes=["e4", out["how"], "own-cancel" if own_recv else ("other-cancel-only" if other_only else "no-cancel")])
+    if out["how"] == "budget":
+        ctx.inconclusive += 1
+        return
+    died = [t for t in out["report"]["threads"] if t["exc"] and not t["name"].startswith("raw-")]
+    if died:
+        ctx.fail("thread-exception", f"{died[0]['kind']}:{died[0]['exc'][2]}", f"{died[0]['name']} died: {died[0]['exc'][:2]}")
+        return
+    first_own = min(own_recv) if own_recv else None
+    for tp, val in polls:
+        if val and (first_own is None or tp < first_own):
+            ctx.fail("spurious", "e4:" + ("other-id" if recv else "no-cancel-at-all"), f"is_cancelled was True at t={tp} but no C-CANCEL naming message {mid} had been received (received: {recv})")
+            return
+    if first_own is not None:
+        later = [(tp, v) for tp, v in polls if tp > first_own + 0.3]
+        earlier_true = any(v for tp, v in polls if first_own <= tp <= first_own + 0.3)
+        if later and not earlier_true and not later[0][1]:
+            ctx.fail("missed", "e4:in-progress", f"C-CANCEL for message {mid} received at t={first_own}, but the poll at t={later[0][0]} still read False; polls={polls} recv={recv}")
+
+
+CHECKS["threaded"] = check_threaded
+_run_e3 = run
+
+
+def run(ctx):
+    from hypothesis import strategies as st
+
+    _run_e3(ctx)
+
+    @st.composite
+    def case(draw):
+        return {"mid": draw(st.sampled_from([1, 7, 65535, 300])), "n": draw(st.integers(1, 5)), "delay": draw(st.sampled_from([0.2, 0.5, 1.0])),
+                "cancels": [[draw(st.sampled_from([0.0, 0.1, 0.35, 0.6, 1.2])), draw(st.sampled_from(["own", "other", "other"]))] for _ in range(draw(st.integers(0, 4)))],
+                "schedule": {"policy": draw(st.sampled_from(["pct", "random", "fifo"])), "drift": draw(st.sampled_from([0.0, 0.05])), "seed": draw(st.integers(0, 10**6)), "preemptions": [], "nudges": []}}
+
+    ctx.hyp("threaded", case(), 40 if ctx.quick else 400)
